@@ -115,7 +115,7 @@ def plans():
                    'maxrows': MAXROWS, 'bound': 4, 'invariants': ['TypeOK', 'Symmetric', 'PermutationInvariant', 'JoinClosed'],
                    'properties': ['LoadIsJoin'], 'must_cover': ('VLoad', 'VLoadInto'), 'budget': 1500, 'budget_thorough': 60000,
                    'maxlen': 3, 'decorate': decorate, 'obs': obs, 'random': random_runs})
-    for name in ('valued', 'keywords', 'assoc_reflexive', 'reflexive_1m', 'grid', 'phrase_ends', 'mixed_case'):
+    for name in ('valued', 'keywords', 'assoc_reflexive', 'reflexive_1m', 'grid', 'phrase_ends', 'mixed_case', 'two_identifiers'):
         ps.append({'name': name + '_random', 'schema': name, 'model': False, 'bound': 4, 'decorate': decorate,
                    'obs': obs, 'random': random_runs})
     ps.append({'name': 'plain2_inferred', 'schema': 'plain2', 'model': False, 'bound': 4, 'decorate': decorate_noschema,
@@ -204,6 +204,22 @@ def split_runs(schema, rnd, tier):
     return runs
 
 
+def batch_runs(schema, rnd, tier):
+    """histories that give identifying attributes explicit, repeated and null values (so that instances come to match
+    without being linked), interleaved with Association.batch_relate on every association"""
+    from . import c11
+    runs = []
+    for r in c11.idclash_runs(schema, rnd, tier):
+        acts = []
+        for a in r['acts']:
+            acts.append(a)
+            if rnd.random() < 0.3 and schema['assocs']:
+                acts.append(['BatchRelate', rnd.randint(1, len(schema['assocs']))])
+        acts.append(['BatchRelate', rnd.randint(1, len(schema['assocs']))])
+        runs.append({'acts': acts})
+    return runs
+
+
 def api_plans():
     obs = metagen.battery(['nav', 'sel', 'chk_assoc'], per_step=1)
     ps = []
@@ -216,6 +232,9 @@ def api_plans():
                  'mixed_case'):
         ps.append({'name': name + '_split', 'schema': name, 'model': False, 'bound': 4, 'obs': obs, 'random': split_runs,
                    'decorate': decorate})
+    # Association.batch_relate closes the join of one association in states made through the API
+    for name in ('one_many', 'one_one', 'many_one_2key', 'reflexive_1m', 'assoc_class', 'subsuper', 'valued', 'grid'):
+        ps.append({'name': name + '_batch', 'schema': name, 'model': False, 'bound': 4, 'obs': obs, 'random': batch_runs})
     return ps
 
 
